@@ -164,7 +164,9 @@ def combo_spec(case, subset):
         return [ex[fs]]
     mags = {i: abs(Fraction(case.outs[i]) - Fraction(case.b)) for i in subset}
     mx = max(mags.values())
-    return [case.outs[i] for i in subset if mags[i] == mx]
+    # the code orders by the float |out - b|: members whose exact distance is within the rounding error of that subtraction of the largest are ties
+    dust = Fraction(4e-16) * max([abs(Fraction(case.b))] + [abs(Fraction(case.outs[i])) for i in subset])
+    return [case.outs[i] for i in subset if mags[i] >= mx - dust]
 
 
 def order_exact_consistent(case):
